@@ -45,12 +45,17 @@ def parseEv (w : String) : Option TEvent :=
   | ["te", n] => n.toNat?.map .timerEnd
   | _ => none
 
+def parseBool' (s : String) : Option Bool :=
+  if s == "0" then some false else if s == "1" then some true else none
+
 def parseLogEntry (w : String) : Option LogEntry :=
   match w.splitOn ":" with
   | ["t", a, b, c] => do some (.trans (← a.toNat?) (← b.toNat?) (← c.toNat?))
   | ["s", a, b, c] => do some (.sampled (← a.toNat?) (← b.toNat?) (← c.toNat?))
   | ["r", h] => do some (.draw (UInt32.ofNat (← hexNat h)))
   | ["d", h] => do some (.distRaw (UInt64.ofNat (← hexNat h)))
+  | ["c", m, a, b, c, d] => do some (.counter (← m.toNat?) (← a.toNat?) (← b.toNat?) (← c.toNat?) (← d.toNat?))
+  | ["l", m, v, d] => do some (.limit (← m.toNat?) (← v.toNat?) (← parseBool' d))
   | _ => none
 
 /-- one operation block: oracle, command words, observed output lines (as word lists) -/
@@ -186,19 +191,21 @@ def parseSnap (outs : List (List String)) : Option Snap := do
   let rc := outs.filter (fun w => w.head? == some "RC")
   let rp := outs.filter (fun w => w.head? == some "RP")
   let rb := outs.filter (fun w => w.head? == some "RB")
-  if rs.length ≠ rc.length ∨ rs.length ≠ rp.length ∨ rs.length ≠ rb.length then none
+  let rz := outs.filter (fun w => w.head? == some "RZ")
+  if rs.length ≠ rc.length ∨ rs.length ≠ rp.length ∨ rs.length ≠ rb.length ∨ rs.length ≠ rz.length then none
   let mut rts : List RtSnap := []
-  for (((a, b), c), d) in ((rs.zip rc).zip rp).zip rb do
-    match a, b, c, d with
-    | ["RS", _, st, lim], ["RC", _, ca, cb], ["RP", _, pd, nm], ["RB", _, bl] =>
+  for ((((a, b), c), d), z) in (((rs.zip rc).zip rp).zip rb).zip rz do
+    match a, b, c, d, z with
+    | ["RS", _, st, lim], ["RC", _, ca, cb], ["RP", _, pd, nm], ["RB", _, bl], ["RZ", _, za, zb] =>
       rts := rts ++ [{ state := ← st.toNat?, limit := ← lim.toNat?, ctrA := ← ca.toNat?, ctrB := ← cb.toNat?,
-                       padding := ← pd.toNat?, normal := ← nm.toNat?, blockingNs := ← bl.toNat? }]
-    | _, _, _, _ => none
+                       padding := ← pd.toNat?, normal := ← nm.toNat?, blockingNs := ← bl.toNat?,
+                       zeroedA := ← parseBool za, zeroedB := ← parseBool zb }]
+    | _, _, _, _, _ => none
   match outs.find? (fun w => w.head? == some "G"), outs.find? (fun w => w.head? == some "GS") with
-  | some ["G", now, nm, pd, bd, bs, ba], some ["GS", sig, za, zb] =>
+  | some ["G", now, nm, pd, bd, bs, ba], some ["GS", sig] =>
     some { rts := rts, now := ← now.toInt?, normal := ← nm.toNat?, padding := ← pd.toNat?,
            blockingNs := ← bd.toNat?, blockingStarted := ← bs.toInt?, blockingActive := ← parseBool ba,
-           signalPending := ← parseSignal sig, zeroedA := ← parseBool za, zeroedB := ← parseBool zb }
+           signalPending := ← parseSignal sig }
   | _, _ => none
 
 def parseLog (outs : List (List String)) : Option (List LogEntry) :=
